@@ -15,8 +15,29 @@ CHECKS = {
  "C16": dict(tech="runtime monitoring: cursor-walk losslessness oracle, end-stickiness, error-cause recomputation and twin-lexer Peek purity over exhaustive short byte strings + fuzzing",
    text="Every byte string up to length 3/4 over a 40-byte alphabet (exhaustive) plus hostile and fuzzed inputs lexed by the real lexer; token texts must tile the input, errors must have one of the three stated causes, Peek must be pure and Parse must fail on lexical errors.",
    note="The set of runes that may start a token is restated in the harness.", ref="5/C16"),
-}
 
+  "C06": dict(tech="runtime monitoring: derivation recogniser (memoised CYK-style oracle over the real lexer's tokens with independently typed terms) on every accepted input of exhaustive token sequences, edits of printed trees and feedback fuzzing",
+   text="For every accepted input explored the returned tree was laid over the real token sequence as a derivation in the documented grammar (typed terms, operators consumed once, brackets around non-empty groups); the token-sequence space up to length L is exhaustive, so acceptance of non-queries is decided completely up to L.",
+   note="The recogniser and the term typing are the harness' own statement of the documented grammar; precedence is not part of it (C05).", ref="5/C06"),
+  "C07": dict(tech="runtime monitoring: metamorphic pair oracle (juxtaposed vs explicit AND texts of the same tree) with the ImplicitAnd hook as witness, over exhaustive depth<=2 trees, AND chains and random trees",
+   text="For every tree explored and every subset of its juxtaposable AND nodes, the juxtaposed and the explicit text parse to DeepEqual trees (or both fail); the hook confirms every written juxtaposition was really injected.",
+   note="An AND is not juxtaposable when its left operand's text ends in a bare ~ or ^ (the next term is then that operator's argument by the grammar E~E).", ref="5/C07"),
+  "C09": dict(tech="runtime monitoring: metamorphic layout oracle (whitespace refill/removal, keyword case subsets, redundant parentheses at the three stated places) over exhaustive token sequences and depth<=2 trees",
+   text="Pairs (base, layout variant) parsed by the real parser; accept/accept pairs must be DeepEqual, and for whitespace and keyword case the variant must fail whenever the base fails.",
+   note="Whitespace is only removed next to a symbol token other than '-' (otherwise tokens would legitimately merge).", ref="5/C09"),
+  "C11": dict(tech="runtime monitoring: differential oracle Parse(q, f) vs Parse(q) with field erasure and a bare-term walk over exhaustive token sequences, trees and fuzzed inputs",
+   text="For every input explored, parsing with an unused default field must accept the same inputs, erase back to the plain tree and leave no bare term as an operand or root.",
+   note="Seven default-field spellings that cannot occur in the generated queries.", ref="5/C11"),
+  "C12": dict(tech="runtime monitoring: JSON round-trip oracle (Marshal/Unmarshal/Validate/re-encode/String/Render/RenderParam/DeepEqual with an independent leaf-kind inference predicate) on every accepted input",
+   text="Every accepted valid-UTF-8 input explored is encoded, decoded, validated, re-encoded byte-identically, printed and rendered identically; DeepEqual is demanded when each leaf has the kind inferred from its JSON text; exceptions are counted.",
+   note="Parameters are compared by value (an integer-valued float and the equal int count as the same parameter).", ref="5/C12"),
+  "C13": dict(tech="runtime monitoring: crash monitor (recover + worker exit status) over schema-aware generated, mutated and edge-case JSON documents; second clause exercised only on documents that pass Validate",
+   text="No panic or process death decoding any generated document; every document that decodes and validates went through String, %#v, Marshal, Render and RenderParam without a panic.",
+   note="Nothing about the content of results is demanded; a run with < 5% validated documents is inconclusive.", ref="5/C13"),
+  "C15": dict(tech="runtime monitoring: call-log replay of a tracing function map against the tree (fold order, arguments), per-operator override and removal differentials, package-level renderers on fuzzy/boost queries",
+   text="driver.Base with tracing functions on every tree explored: one call per node, bottom-up, children's results as arguments; overriding one operator changes only its nodes; a missing function gives an error and no partial text; ~/^ queries fail in both package-level renderers.",
+   note="Leaf functions' raw-value argument format is not checked (C02's business).", ref="5/C15"),
+}
 NOT_YET = {
 }
 
